@@ -49,12 +49,22 @@ func (s *Segment) getDocStoredOffsets(docNum uint64) (indexOffset, storedOffset,
 		return 0, 0, 0, 0, 0, err
 	}
 
-	metaLenData := s.storedFieldChunkUncompressed[int(storedOffset):int(storedOffset+binary.MaxVarintLen64)]
+	// the two varints may sit at the very end of the block: never look past it
+	blockLen := uint64(len(s.storedFieldChunkUncompressed))
+	metaLenEnd := storedOffset + binary.MaxVarintLen64
+	if metaLenEnd > blockLen {
+		metaLenEnd = blockLen
+	}
+	metaLenData := s.storedFieldChunkUncompressed[int(storedOffset):int(metaLenEnd)]
 	var read int
 	metaLen, read = binary.Uvarint(metaLenData)
 	n += uint64(read)
 
-	dataLenData := s.storedFieldChunkUncompressed[int(storedOffset+n):int(storedOffset+n+binary.MaxVarintLen64)]
+	dataLenEnd := storedOffset + n + binary.MaxVarintLen64
+	if dataLenEnd > blockLen {
+		dataLenEnd = blockLen
+	}
+	dataLenData := s.storedFieldChunkUncompressed[int(storedOffset+n):int(dataLenEnd)]
 	dataLen, read = binary.Uvarint(dataLenData)
 	n += uint64(read)
 
